@@ -23,11 +23,7 @@ def main():
     assert rc == 0, out
     res = {"dir": d, "property": meta.get("property"), "summary": meta.get("summary"), "needs": meta.get("needs")}
     try:
-        demo = meta["demo_cmd"]
-        for f in os.listdir(d):
-            if f not in ("patch.diff", "meta.json"):
-                sh("cp -r %s %s/" % (os.path.join(d, f), WT))
-        demo = demo.replace(d + "/", "").replace("/tmp/mut-%s/repo/" % meta.get("property", "").lower(), "")
+        demo = meta["demo_cmd"].split("   (")[0]        # run verbatim from the worktree root (absolute paths stay valid)
         rc, out = sh(demo, cwd=WT, timeout=300)
         res["demo_clean_rc"] = rc
         rc, out = sh("git apply --3way %s" % os.path.join(d, "patch.diff"), cwd=WT)
